@@ -18,6 +18,7 @@ model transcribes them), float / dimension / fraction renderings (C27).
 import AgVerif.Proof.Axml
 import AgVerif.Proof.AxmlPool
 import AgVerif.Proof.AxmlFile
+import AgVerif.Proof.AxmlDoc
 namespace AgVerif.C26
 open AgVerif.Axml AgVerif.Spec.Axml AgVerif.Proof.Axml AgVerif.Gen.AxmlConsts
 
@@ -247,6 +248,32 @@ theorem axml_roundtrip (opq : Nat → Nat → Str) : C26_full opq := by
   intro E d hwf hn
   rw [print_encoded opq E d hwf, norm_normal _ hn]
 
+/-! ### against the specification that imports nothing (Spec/AxmlTree.lean) -/
+
+/-- `attr_value_spec`: for every type byte and every 32-bit data word, `format_value` returns the string the value denotes
+    by the independent definition `Spec.AxmlTree.valueString` (digits defined by their value; references, attributes, hex,
+    boolean, colours, signed decimal, the placeholder of TYPE_NULL / undefined types; float, dimension and fraction are the
+    C27 rendering on both sides). -/
+theorem attr_value_spec (complex : Nat → Nat → Str) (ty data : Nat) (str : Str) (ht : ty < 256) (hd : data < 2 ^ 32) :
+    formatValue complex ty data str = AgVerif.Spec.AxmlTree.valueString complex ty data str :=
+  AgVerif.Proof.AxmlSpecValue.formatValue_eq_valueString complex ty data str ht hd
+
+/-- the expected tree of `axml_roundtrip`, for documents without duplicate attributes (XML allows none), is the specification
+    tree built with `valueString` only -/
+theorem tree_of_document_spec (complex : Nat → Nat → Str) (E : Enc) (d : SNode) (hwf : wfDoc complex E d = true)
+    (hd : distinctAttrs d) : toX (treeOf complex d) = specTreeOf complex d := by
+  simp only [wfDoc, Bool.and_eq_true] at hwf
+  exact AgVerif.Proof.AxmlDoc.tree_spec complex E d hwf.1.1.1.1.2 hd
+
+/-- The property, stated against the independent specification: the printer returns, for the file of every well-formed
+    document in text normal form and without duplicate attributes, the tree whose elements, namespace URIs, attribute names and
+    text are the document's and whose attribute values are the strings `valueString` assigns to their declared types. -/
+theorem axml_roundtrip_spec (complex : Nat → Nat → Str) (E : Enc) (d : SNode) (hwf : wfDoc complex E d = true)
+    (hn : Normal (treeOf complex d)) (hd : distinctAttrs d) :
+    (printAxml complex (encodeAxml E d)).map (fun r => (r.1, r.2.map toX)) = .ok (true, some (specTreeOf complex d)) := by
+  rw [axml_roundtrip complex E d hwf hn]
+  simp only [Except.map, Option.map_some, tree_of_document_spec complex E d hwf hd]
+
 /-! Non-vacuity -/
 def exUri : Str := lit "http://schemas.android.com/apk/res/android"
 def exEnc (utf8 wide : Bool) (res : Option (List Nat)) : Enc :=
@@ -257,6 +284,13 @@ def exDoc : SNode :=
     [.text 2 (lit "x"), .elem 3 (lit "app") (some exUri) [] [⟨none, lit "v", 7, 0x12, 1, []⟩] [], .text 2 (lit "x")]
 example : wfDoc (fun _ _ => []) (exEnc true false none) exDoc = true := by decide +kernel
 example : wfDoc (fun _ _ => []) (exEnc false true (some [0x1010003, 0x7f010000])) exDoc = true := by decide +kernel
+example : distinctAttrs exDoc := by simp only [exDoc, distinctAttrs, distinctAttrsL]; decide
+example : AgVerif.Spec.AxmlTree.valueString (fun _ _ => []) 0x1C 0xFF00FF7F [] = lit "#FF00FF7F" := by decide
+example : AgVerif.Spec.AxmlTree.valueString (fun _ _ => []) 0x01 0x01010003 [] = lit "@android:01010003" := by decide
+example : AgVerif.Spec.AxmlTree.valueString (fun _ _ => []) 0x10 0xFFFFFFFF [] = lit "-1" := by
+  rw [← attr_value_spec _ _ _ _ (by decide) (by decide)]; decide
+example : AgVerif.Spec.AxmlTree.valueString (fun _ _ => []) 0x00 0x1F [] = lit "<0x1F, type 0x00>" := by
+  rw [← attr_value_spec _ _ _ _ (by decide) (by decide)]; decide
 example : Normal (treeOf (fun _ _ => []) exDoc) := by simp only [exDoc, treeOf, treeOfL, Normal, NormalL]; decide
 example : printAxml (fun _ _ => []) (encodeAxml (exEnc true false none) exDoc) = .ok (true, some (treeOf (fun _ _ => []) exDoc)) :=
   axml_roundtrip _ _ _ (by decide +kernel) (by simp only [exDoc, treeOf, treeOfL, Normal, NormalL]; decide)
